@@ -48,6 +48,15 @@ def inject(fmt, lines, cls, i=0):
         j = {"vcf": 1, "sam": 3, "gtf": 3, "gffc": 3}.get(fmt, 1)
         cols[j] = BADCHAR[cls] + cols[j][1:]
         lines[0] = "\t".join(cols)
+    elif cls == "non-numeric-long-cell":
+        # a cell of more than nineteen characters whose offending characters all come before its last nineteen
+        cols = lines[0].split("\t")
+        cols[1] = "ID" + "0" * 17 + "25"
+        lines[0] = "\t".join(cols)
+    elif cls == "misplaced-line-break":
+        # the line break one field too early: a line with one field too few, then a line with one too many (the deviations cancel)
+        cols = lines[0].split("\t")
+        lines = ["\t".join(cols[:-1]), "\t".join(cols[-1:] + cols)]
     elif cls == "column-count":
         k = lines[0].rfind("\t")
         lines[0] = lines[0][:k] + "x" + lines[0][k + 1:]
@@ -218,9 +227,9 @@ def check_vector(v):
 
 
 # ------------------------------------------------------------------------------------------------ binding B
-BSETS = [("bed6", ["bad-symbol", "non-numeric", "non-numeric-capital", "non-numeric-space", "non-numeric-dollar", "non-numeric-after-signed", "non-numeric-score", "column-count", "extra-column", "double-columns"]),
+BSETS = [("bed6", ["bad-symbol", "non-numeric", "non-numeric-capital", "non-numeric-space", "non-numeric-dollar", "non-numeric-after-signed", "non-numeric-score", "column-count", "extra-column", "double-columns", "non-numeric-long-cell", "misplaced-line-break"]),
          ("narrowpeak", ["non-numeric-float", "bad-symbol", "float-interior-minus"]),
-         ("vcf", ["non-numeric"]), ("gffc", ["non-numeric"]), ("bedgraph", ["non-numeric", "non-numeric-after-signed", "float-interior-minus", "float-two-dots", "float-trailing-minus"]), ("bed3", ["non-numeric", "column-count", "extra-column", "double-columns"]),
+         ("vcf", ["non-numeric"]), ("gffc", ["non-numeric"]), ("bedgraph", ["non-numeric", "non-numeric-after-signed", "float-interior-minus", "float-two-dots", "float-trailing-minus"]), ("bed3", ["non-numeric", "column-count", "extra-column", "double-columns", "non-numeric-long-cell", "misplaced-line-break"]),
          ("fastq", ["no-marker", "no-plus", "blank-header"]), ("fasta2", ["no-marker", "blank-header"])]
 
 
